@@ -6,7 +6,7 @@ use serde_json::json;
 use std::time::Duration;
 
 pub fn op_menu() -> Vec<&'static str> {
-    vec!["set k v1", "set-safe k 0 s1", "remove k", "increment c", "create-db d2 tok2", "create-user bob bt", "set-permissions bob rw k*", "snapshot false t"]
+    vec!["set k v1", "set-safe k 1 s1", "remove k", "increment c", "create-db d2 tok2", "create-user bob bt", "set-permissions bob rw k*", "snapshot false t"]
 }
 
 /// does the command write this key?
@@ -73,7 +73,7 @@ pub fn converged(w: &NetWorld, sc: &Script) -> Vec<(String, String)> {
                                 if wrote_cmd(c, k) { Some(format!("{}:{}", if *n == p { "primary".to_string() } else { "secondary".to_string() }, cmd)) } else { None }
                             })
                             .collect();
-                        let origin = if wrote(i, k) { format!(" [the secondary issued a write to it; writers {}]", writers.join(" ")) } else { String::new() };
+                        let origin = if wrote(i, k) { format!(" [the secondary issued a write to it, writers {}]", writers.join(" ")) } else { String::new() };
                         let kind = match (a.get(k), b.get(k)) {
                             (Some(x), Some(y)) if x == y => continue,
                             (Some(x), Some(y)) if x.0 == y.0 => format!("same value, secondary version {} the primary's by {}{}", if y.1 > x.1 { "ahead of" } else { "behind" }, (y.1 - x.1).abs(), origin),
@@ -102,7 +102,7 @@ pub fn scripts(nodes: usize, all_pairs: bool) -> Vec<Script> {
     }
     // two operations: both on the primary (same session), and one per node
     let pairs: Vec<(&str, &str)> = if !all_pairs {
-        vec![("set k v1", "set k v2"), ("set k v1", "remove k"), ("increment c", "increment c"), ("set k v1", "increment c"), ("set-safe k 0 s1", "set-safe k 0 s2"), ("remove k", "set k v2")]
+        vec![("set k v1", "set k v2"), ("set k v1", "remove k"), ("increment c", "increment c"), ("set k v1", "increment c"), ("set-safe k 1 s1", "set-safe k 1 s2"), ("remove k", "set k v2")]
     } else {
         let mut p = vec![];
         for a in menu.iter() {
